@@ -66,10 +66,10 @@ func c15Pool(quick bool) []recipe {
 	keys := []uint16{0, 1, 2, 5, 0xFFFF}
 	shapesOf := []uint32{0, bit(shapes.Lo), bit(shapes.Hi), bit(shapes.LowHalf), bit(shapes.UpHalf), bit(shapes.Full), bit(shapes.Full, shapes.Hole)}
 	modes := []int{shapes.Points, shapes.Opt}
-	if quick {
-		keys = []uint16{0, 1, 2, 0xFFFF}
-	} else {
-		// thorough: striped, ranged and many-run chunks as well (10 shapes ^ 5 keys x 2 modes = 200 000 states)
+	// an array chunk with interior elements next to both word and half-chunk edges
+	shapesOf = append(shapesOf, bit(shapes.W, shapes.Mid))
+	if !quick {
+		// thorough: striped, ranged and many-run chunks as well (11 shapes ^ 5 keys x 2 modes = 322 102 states)
 		shapesOf = append(shapesOf, bit(shapes.S4095, shapes.Lo, shapes.Hi), bit(shapes.Big), bit(shapes.R2047))
 	}
 	n := 1
